@@ -4,12 +4,14 @@ use serde_json::json;
 pub mod c_hist;
 pub mod c02;
 pub mod c06;
+pub mod c10;
 
 pub fn meta(id: &str, tier: &str) -> Option<CheckMeta> {
     match id {
         "C01" | "C04" => Some(c_hist::meta(id, tier)),
         "C02" => Some(c02::meta(tier)),
         "C06" => Some(c06::meta(tier)),
+        "C10" => Some(c10::meta(tier)),
         _ => None,
     }
 }
@@ -33,6 +35,7 @@ pub fn worker(ctx: &Ctx, res: &mut ShardResult) {
         "C01" | "C04" => c_hist::worker(ctx, res),
         "C02" => c02::worker(ctx, res),
         "C06" => c06::worker(ctx, res),
+        "C10" => c10::worker(ctx, res),
         _ => panic!("unknown check"),
     }
 }
@@ -46,6 +49,7 @@ pub fn replay(path: &str) -> i32 {
         "C01" | "C04" => c_hist::replay(id, &v["case"]),
         "C02" => c02::replay(&v["case"]),
         "C06" => c06::replay(&v["case"]),
+        "C10" => c10::replay(&v["case"]),
         _ => vec![format!("no replayer for {}", id)],
     };
     let _ = json!(null);
